@@ -75,6 +75,9 @@ where
     m[R - 1][31] = last;
     let mut st = StripedSequence::<A, U32>::new(m, 32 * R).unwrap();
     st.configure_wrap(M - 1);
+    // a clone has no spare capacity: its buffer ends exactly after the last
+    // look-ahead row, so a kernel that touches one row too many leaves the object
+    let st = st.clone();
     let mut scores = StripedScores::<f32, U32>::empty();
     pli.score_rows_into(&pssm, &st, R - 1..R, &mut scores);
     assert!(scores.matrix().rows() == 1);
@@ -93,6 +96,42 @@ harness!(avx2mem, 1100, c06_avx2_stripe_dna_l1024, stripe_body::<Dna, 1024, 0>()
 harness!(avx2mem, 1100, c06_avx2_stripe_dna_l993, stripe_body::<Dna, 993, 33>());
 //@ C06 quick 3600 AVX2 stripe memory checks, protein, L=1056 (R=33: one block + one scalar row) | mem=20
 harness!(avx2mem, 1100, c06_avx2_stripe_protein_l1056, stripe_body::<Protein, 1056, 1>());
+/// AVX2 / dispatcher u8 scoring on an exactly-sized (cloned) sequence with M-1 look-ahead rows
+fn score_u8_edge_body<const R: usize, const M: usize>(arm: lightmotif::pli::dispatch::Dispatch) {
+    use lightmotif::pli::dispatch::{set_verif_override, Dispatch};
+    set_verif_override(Some(arm));
+    let pli = Pipeline::<Dna, Dispatch>::dispatch();
+    let mut dm = DenseMatrix::<u8, U5>::new(M);
+    for j in 0..M {
+        for a in 0..5 {
+            dm[j][a] = (40 * j + a) as u8;
+        }
+    }
+    let mut m = DenseMatrix::<Nucleotide, U32>::new(R);
+    let last = Dna::any_sym();
+    for r in 0..R {
+        for c in 0..32 {
+            m[r][c] = Nucleotide::N;
+        }
+    }
+    m[R - 1][31] = last;
+    let mut st = StripedSequence::<Dna, U32>::new(m, 32 * R).unwrap();
+    st.configure_wrap(M - 1);
+    let st = st.clone();
+    let mut scores = StripedScores::<u8, U32>::empty();
+    pli.score_rows_into(&dm, &st, R - 1..R, &mut scores);
+    assert!(scores.matrix().rows() == 1);
+    let _ = pli.max(&scores);
+    let _ = pli.argmax(&scores);
+    pli.score_into(&dm, &st, &mut scores);
+    assert!(scores.matrix().rows() == R);
+    crate::witness!(last.as_index() == 0, "lowest symbol index");
+}
+
+//@ C06 quick 1800 AVX2 u8 shuffle scoring + max/argmax via dispatcher, DNA, R=2, M=3, exactly-sized sequence buffer
+harness!(avx2, 40, c06_avx2_score_u8_edge_r2_m3, score_u8_edge_body::<2, 3>(lightmotif::pli::dispatch::Dispatch::Avx2));
+//@ C06 quick 1800 generic u8 scoring + max/argmax via dispatcher (SSE2 arm), DNA, R=1, M=2, exactly-sized sequence buffer
+harness!(avx2, 40, c06_generic_score_u8_edge_r1_m2, score_u8_edge_body::<1, 2>(lightmotif::pli::dispatch::Dispatch::Sse2));
 //@ C06 quick 1800 AVX2 permute scoring + max/argmax, DNA, R=2, M=3, exactly M-1 look-ahead rows, last row range
 harness!(avx2, 40, c06_avx2_score_edge_dna_r2_m3, score_edge_body::<Dna, 2, 3>());
 //@ C06 quick 1800 AVX2 gather scoring + max/argmax, protein, R=1, M=2, symbol index 20 everywhere
